@@ -234,22 +234,8 @@ func checkVM(src string, inputs []inputVar) {
 	if h%3 == 0 {
 		budgets = append(budgets, int64(1+h%40))
 	}
-	for _, b := range budgets {
-		st, model, impl, err := lib.VMCompare(drv, c, mk, b)
-		if err != nil {
-			fatal(err)
-		}
-		res.ModelLines++
-		res.Dist("vm:" + st)
-		if b >= 0 {
-			res.Dist("vm-budget:" + strings.Fields(impl + " -")[0])
-		}
-		switch st {
-		case "agree":
-			res.Count("vm", fmt.Sprintf("%d|%s", b, src), len(c.BC.MainFunction.Instructions) > 40)
-		case "differ":
-			res.Disagree(lib.Disagreement{Stream: "vm", Input: replayInput{src}, Model: firstDiff(model, impl), Impl: firstDiff(impl, model)})
-		}
+	if err := lib.VMStream(res, drv, c, src, mk, budgets, func(int64) interface{} { return replayInput{src} }); err != nil {
+		fatal(err)
 	}
 }
 
